@@ -12,6 +12,7 @@ CORPUS = [
                ("set", 1, "a/b", 1), ("set", 1, "a/b", 2), ("cset", 1, "a/c", 2, 0), ("cset", 1, "a/c", 2, 1), ("pub", "a/b", 2), ("del", 1, "a/b"),
                ("pdel", 1, "a/#"), ("unsub", 2, 1), ("set", 1, "a/b", 3), ("unsub", 2, 1), ("unsub", 2, 2), ("set", 1, "a/b", 4)]),
     ("F2-fold", [("set", 1, "k", 1), ("set", 1, "k/x", 1), ("psub", 2, 1, "k/#", False, False), ("set", 1, "k", 2), ("set", 1, "k/x", 2), ("pget", "k/#")]),
+    ("F24-dup-tid", [("sub", 2, 6, "x", False, True), ("sub", 2, 6, "y", False, True), ("set", 1, "x", 1), ("set", 1, "y", 1), ("unsub", 2, 6), ("set", 1, "y", 2), ("set", 1, "x", 2), ("unsub", 2, 6)]),
     ("spub", [("psub", 2, 1, "#", True, True), ("spubinit", 1, 7, "s/t"), ("spub", 1, 7, 1), ("spub", 1, 7, 1), ("spub", 1, 8, 1), ("spub", 2, 7, 1)]),
     ("import", [("cset", 1, "i", 1, 0), ("psub", 2, 1, "#", True, False), ("sub", 2, 2, "i", False, True), ("import", {"i": ("C", 1, 1), "j/k": ("P", 2)}),
                 ("import", {"i": ("C", 1, 5)}), ("import", {"i": ("P", 1)})]),
@@ -28,6 +29,8 @@ def random_case(g, n):
         x = r.random(); c = g.client()
         if x < 0.12:
             t = tids.get(c, 0) + 1; tids[c] = t
+            if active and r.random() < 0.08:
+                c, t = r.choice(active)                      # a transaction id that is still subscribed (F24)
             if r.random() < 0.6:
                 ops.append(("psub", c, t, g.pattern(), r.random() < 0.4, r.random() < 0.4))
             else:
